@@ -106,6 +106,7 @@ def check(ctx):
     # marker file, thinned to the query genes by re-shaping its sparse
     # arrays: the index arrays keep an integer type that holds their
     # values through that re-shaping (sa/rules/capacity.py)
+    from ..rules.idioms import check_returns_depend_alike
     from ..rules.capacity import (check_index_cast_to_input_dtype,
                                   check_index_arithmetic_widened,
                                   check_borrowed_dtype)
@@ -113,12 +114,14 @@ def check(ctx):
     for fi_ in ctx.db.iter_functions():
         if fi_.module.short in ('utils.csc_to_csr',
                                 'utils.csc_to_csr_parallel',
+                                'utils.sparse_utils',
                                 'marker_selection.marker_array',
                                 'diff_exp.sparse_markers'):
             n_fn += 1
             check_index_cast_to_input_dtype(ctx, fi_)
             check_index_arithmetic_widened(ctx, fi_)
             check_borrowed_dtype(ctx, fi_)
+            check_returns_depend_alike(ctx, fi_)
     ctx.ok('R-CAP/index-cast-to-input-type', 're-shaping of the marker '
            'table', 'package', f'{n_fn} functions of the transposition '
            'and marker-array modules: no index array is forced into the '
